@@ -62,6 +62,8 @@ Next ==
        S!NewStore(cfg, FALSE, Nil, cache)
   \/ \E n \in NameSet : S!InitReq(n) \/ S!PollStep(n) \/ S!FlightSend(n)
   \/ \E n \in NameSet, f \in Forced : S!InitResp(n, f) \/ S!PollResp(n, f) \/ S!LookupResp(n, f)
+  \/ \E n \in NameSet : S!InitStray(n)
+  \/ (On("xflush") /\ S!ExtraFlush)
   \/ S!InitRoundEnd \/ S!InitWake \/ S!PollFinish
   \/ On("refresh") /\ \E c \in CallerSet, dl \in LookupDeadlines : S!Refresh(c, Dl(LookupDeadlines, dl))
   \/ On("tick") /\ S!Refresh("poller", Nil)
